@@ -274,6 +274,70 @@ def zero_new_arrays(src_cells, out_cells, only_fields=None):
 
 # ---- the check ----------------------------------------------------------------------------------
 
+def me_guards(ctx, rng, n):
+    """the guards of maximum_entropy_ensemble (bootstrap.py:250-258) against `meEnsembleRaw`: a single value and a
+    constant series come back unchanged (also [None], [None, None], [2, 2.0]); a non-constant series containing
+    None is refused with ValueError; a None-free non-constant series gives the quantiles in the source's rank order.
+    (The U guard `0 > u > 1` can never fire; U is always drawn from [0, 1) here.)"""
+    from common import w_val
+    reqs, post = [], []
+    for ci in range(n):
+        shape = rng.choice(["single", "constant", "constant-none", "none-mixed", "none-mixed", "numbers"])
+        k = rng.randrange(2, 7)
+        if shape == "single":
+            xs = [rng.choice([None, 3, 2.5, 0, rng.randrange(1, 99) / 4])]
+        elif shape == "constant":
+            v = rng.choice([2, 0.5, 0, 7.25])
+            xs = [rng.choice([v, float(v), int(v)]) if float(v) == int(v) else v for _ in range(k)]
+        elif shape == "constant-none":
+            xs = [None] * k
+        elif shape == "none-mixed":
+            xs = [rng.choice([None, rng.randrange(1, 40) / 4, rng.randrange(1, 9)]) for _ in range(k)]
+            xs[rng.randrange(k)] = None
+            if all(v is None for v in xs):
+                xs[rng.randrange(k)] = 1.5
+            if rng.random() < 0.3:                    # None first / None only after equal leading values
+                xs = [None] + [v for v in xs if v is not None][:k - 1] + [2.0]
+        else:
+            xs = [rng.choice([rng.randrange(1, 4096) / 4, rng.randrange(1, 50)]) for _ in range(k)]
+        U = [rng.random() for _ in xs]
+        L = rng.choice([None, (0, 5000)]) if len(xs) >= 3 else (0, 5000)
+        st, r = call(maximum_entropy_ensemble, list(xs), U, L)
+        ctx.count(f"me-guards/{shape}")
+        ctx.case(digest=json.dumps(["me-guards", [None if v is None else float(v) for v in xs],
+                                    [type(v).__name__ for v in xs]]), nontrivial=len(xs) > 1,
+                 sample={"op": "maximum_entropy_ensemble", "x": xs} if ci < 1 else None)
+        if st == "ok":
+            impl = {"ok": [w_val(v) for v in r]}
+            numeric = all(v is not None for v in r)
+            qs = sorted(float(v) for v in r) if numeric else []
+        else:
+            impl, qs = {"err": r}, []
+        reqs.append({"op": "meRaw", "xs": [w_val(v) for v in xs], "qs": rats(qs)})
+        post.append((xs, U, L, impl))
+    outs = common.Driver("drv_c17").run(reqs)
+    for (xs, U, L, impl), out in zip(post, outs):
+        model = out["model"]
+        case = {"x": xs, "U": U, "L": L}
+        const = all(xs[0] == v for v in xs[1:])
+        if len(xs) == 1 or const:
+            if impl != {"ok": [w_val(v) for v in xs]}:
+                ctx.fail("maximum_entropy_ensemble: a constant / single series must come back unchanged", case, impl)
+        elif any(v is None for v in xs):
+            if impl != {"err": "ValueError"}:
+                ctx.fail("maximum_entropy_ensemble: a (non-constant) series with a missing value must be refused "
+                         "with ValueError", case, impl)
+        if ("err" in model) != ("err" in impl) or model.get("err", impl.get("err")) != impl.get("err", model.get("err")):
+            ctx.disagree("maximum_entropy_ensemble guards (meEnsembleRaw): outcome", case, model, impl)
+        elif "ok" in model:
+            a = [None if v is None else Fraction(v[1]) for v in model["ok"]]
+            b = [None if v is None else Fraction(v[1]) for v in impl["ok"]]
+            kinds_m = [None if v is None else v[0] for v in model["ok"]]
+            kinds_i = [None if v is None else v[0] for v in impl["ok"]]
+            if a != b or ((len(xs) == 1 or const) and kinds_m != kinds_i):
+                ctx.disagree("maximum_entropy_ensemble guards (meEnsembleRaw): value", case, model, impl)
+
+
 def correspondence(ctx):
     rng = ctx.rng
     reqs, post = [], []
@@ -324,6 +388,8 @@ def correspondence(ctx):
             continue
         reqs.append({"op": "reimpose", "xs": rats(xs), "qs": rats(qs), "impl": rats(impl)})
         post.append(("rank", {"which": which, "xs": xs, "qs": qs}, impl))
+
+    me_guards(ctx, rng, 400 if ctx.thorough else 80)
 
     # (ii) bootstrap ----------------------------------------------------------------------------------
     n_boot = 2500 if ctx.thorough else 170
@@ -571,7 +637,9 @@ if __name__ == "__main__":
     common.run_check(
         "C17", module="Bermuda.Properties.C17", driver_targets=["drv_c17"],
         correspondence=correspondence, level="translation_validation",
-        rule="(i) random series with and without ties through maximum_entropy_ensemble (with/without L) and "
+        rule="(i') guards of maximum_entropy_ensemble vs meEnsembleRaw: single values, constant series (incl. None only), "
+             "non-constant series with None (ValueError), None-free series; "
+             "(i) random series with and without ties through maximum_entropy_ensemble (with/without L) and "
              "_sort_x_on_y_rank; (ii) bootstrap of complete rectangular / upper-left / single row, column, diagonal, "
              "cell triangles, 1-3 slices (same or different shapes), 1-6 periods and lags spaced by the evaluation "
              "resolution (1,3,6,12 months), positive int/float fields with exactly representable age-to-age ratios, a "
